@@ -795,7 +795,9 @@ def list_program(rng):
 
 
 # ---- C06 / C16: datum trees and layouts --------------------------------------------------------
-IDENTS = ["a", "b", "foo", "+", "-", "...", "->x", "a.b", "set!", "x1", "<=?", "!$%&*/:<=>?^_~", "|hello world|", "||", "|(|", "list->vector", "-x", "+a", ".a", "..."]
+IDENTS = ["a", "b", "foo", "+", "-", "...", "->x", "a.b", "set!", "x1", "<=?", "!$%&*/:<=>?^_~", "|hello world|", "||", "|(|", "list->vector", "-x", "+a", ".a", "...",
+          # identifiers that begin like something else: a sign and the first letters of inf/nan, an exponent marker, a number prefix
+          "-info", "+infix", "+nano", "-nan?", "+inf-loop", "-i", "+e1", "-e", "e1", "x.5", "+i", "nan.0", "inf"]
 REALS = ["1.5", "-0.25", "1e3", "1.5e-3", "2.", "0.1", "-12.75", "3.4e38", "1e-40", "100.0", "6.02e23", "0.0", "-0.0", "1e10"]
 
 
@@ -935,7 +937,7 @@ def value_expr(rng, depth):
         if k < 0.7:
             return rng.choice(["#t", "#f"])
         if k < 0.8:
-            return "#\\" + rng.choice("aZ09(;#.'")
+            return "#\\" + rng.choice("aZ09(;#.' )")
         if k < 0.95:
             return "'" + rng.choice(["a", "foo", "+", "-", "...", "->x", "a.b", "x1", "list->vector", "<=?", "quote", "quote", "quasiquote", "unquote", "unquote-splicing"])
         return "'()"
